@@ -113,6 +113,9 @@ ResolveIn(nd, r) ==
      [] r.op = "get_function_ex" -> FunctionRes(a[1], a[2], a[3], M(a[4]).w, M(a[4]).w2)
      [] r.op = "get_product" -> Same(TypeRec("Product", a, 0))
      [] r.op = "get_sum" -> Same(TypeRec("Sum", a, 0))
+     \* the same request through a sequence object of the caller's own: sequences are compared element by element
+     [] r.op = "get_product_ref" -> Same(TypeRec("Product", a, 0))
+     [] r.op = "get_sum_ref" -> Same(TypeRec("Sum", a, 0))
      [] r.op = "get_product_of" -> Same(TypeRec("Product", M(a[1]).ops, 0))
      [] r.op = "get_sum_of" -> Same(TypeRec("Sum", M(a[1]).ops, 0))
      [] r.op = "get_forall" -> Same(TypeRec("Forall", <<a[1], a[2]>>, 0))
